@@ -184,6 +184,22 @@ theorem constructed_refused_iff (spec : Constr) (mapping : CVal) (hw : spec.wf =
         exact absurd hg hl
       · simp [htr] at hg
 
+/-- a legacy `sizeSpec` never displaces the subtypeSpec (fix 9bc6b88): whatever the moved
+    constraint set admits, the declared subtypeSpec admits -/
+theorem sizeSpec_keeps_subtypeSpec (subtypeSpec sizeSpec : Constr) (i : Option Nat) (v : CVal)
+    (h : den (moveSizeSpec subtypeSpec sizeSpec) i v) : den subtypeSpec i v := by
+  unfold moveSizeSpec at h
+  by_cases h1 : (!sizeSpec.truthy) = true
+  · simpa [h1] using h
+  · by_cases h2 : (!subtypeSpec.truthy) = true
+    · simp only [h1, h2, if_true, Bool.false_eq_true, if_false] at h
+      exact ((derive_den _ _ i v).mp h).1
+    · by_cases h3 : (!Constraint.isSuperTypeOf (.mk .intersection (.con sizeSpec .nil)) subtypeSpec) = true
+      · simp only [h1, h2, h3, if_true, Bool.false_eq_true, if_false] at h
+        rw [den_intersection] at h
+        exact h.1
+      · simpa [h1, h2, h3] using h
+
 /-! ### non-vacuity: concrete instances (the witnesses of the repaired defects among them) -/
 
 /-- INTEGER (0..10) -/
@@ -201,6 +217,9 @@ example : ¬ den tJ none (.atom (.int 20)) := fun h => by
 /-- T6: the parent recognises the flattened derived set -/
 example : isSuperTypeOf tI tJ = true := subtype_recognised tI _ (by decide)
 example : isSuperTypeOf tJ tI = false := by decide
+/-- a union imposes none of its operands (fix 8bf629a): INTEGER (0..10) is not a supertype of
+    INTEGER (0..10 | 20..30) -/
+example : isSuperTypeOf tI (intersection [union [valueRange 0 10, valueRange 20 30]]) = false := by decide
 example : isSuperTypeOf tI (deriveChain tI [valueRange 1 9, singleValue [.int 3], valueRange 3 3]) = true :=
   chain_recognised tI (by decide) _
 /-- a parent declared with a bare (non-intersection) subtypeSpec: `subtype()` narrows (fix 18cf487) -/
@@ -220,6 +239,8 @@ example : encodeGate tItem (.record [("id", .int 1)]) = .accept := by decide
 example : encodeGate tItem (.record [("id", .int 1), ("name", .bytes [120])]) = .reject := by decide
 example : encodeGate (intersection [valueSize 1 2]) (.coll [.int 0, .int 1, .int 2]) = .reject := by decide
 example : typed tItem (.record [("id", .int 1)]) = true ∧ tItem.wf = true := by decide
+example : moveSizeSpec (intersection [valueSize 1 1]) (intersection [valueSize 1 5])
+    = intersection [intersection [valueSize 1 1], intersection [valueSize 1 5]] := by decide
 /-- assignment of a derived, explicitly tagged value to a field of the parent type -/
 example : assignable false ⟨[⟨.universal, false, 2⟩], tI⟩
     ⟨[⟨.universal, false, 2⟩, ⟨.context, true, 0⟩], tJ⟩ = true :=
